@@ -179,7 +179,7 @@ func readAll(sh *shard.Shard, pool []uuid.UUID) (string, map[uuid.UUID]Val, erro
 func runShardChild(a childArgs) error {
 	g := newGen(a.profile, a.seed, a.idx)
 	g.noRej = a.cfg == 4
-	if a.profile == "c01" && a.idx%5 == 3 {
+	if a.profile == "c01" && a.idx%5 == 3 && a.cfg != 4 {
 		g.maxSize = 300 + g.r.IntN(300)
 	}
 	f, err := os.Create(a.out)
